@@ -10,7 +10,7 @@
 (***************************************************************************)
 EXTENDS ObsPrelude
 
-Tol == 100000      \* 1e-4 relative: six decades of dynamic range on float data
+Tol == 1000        \* 1e-6 relative
 
 \* exponent required of output `key` of estimator `est` (3 = linear in c)
 Law(est, key) ==
